@@ -227,6 +227,7 @@ type Exec struct {
 	branchDir     string
 	branchQueries int
 	pinTried      map[*smt.Term]int
+	partial       map[*smt.Term]partialRec // partially forgotten field heaps (elems() of a struct slice)
 	pendingGhost []pendingGhostCheck
 	allocSeq int
 	noSafety int
